@@ -664,8 +664,8 @@ def c10_12(ctx):
 
 def c10_11(ctx):
     """no validation / signing result of the PSBT layer is remembered under a key that leaves out one of its inputs"""
-    from sa.memo import memo_obligation
-    return memo_obligation(ctx, ["psbt"], "a PSBT field validated once would be accepted with other contents")
+    from sa.memo import cache_obligation
+    return cache_obligation(ctx, ["psbt", "psbt_helper", "tx", "script"], "a PSBT field validated once would be accepted with other contents")
 
 
 def c10_13(ctx):
@@ -828,7 +828,23 @@ def c10_14(ctx):
     return out
 
 
+def c10_17(ctx):
+    """SET-ORDER: no ordered result (list, serialisation, yielded sequence) of the modules this property is anchored in takes its
+    order from the iteration order of a set"""
+    from sa.setorder import setorder_obligation
+    return setorder_obligation(ctx, ["psbt", "psbt_helper", "tx", "script"], "the same inputs give different output from run to run")
+
+
+def c10_18(ctx):
+    """SHARED necessary conditions over the modules this property is anchored in: FALSY-DEFAULT, MUTABLE-DEFAULT, IDENTITY, ALIAS,
+    CTOR-FORWARD (sa/shared.py)"""
+    from sa.shared import shared_obligations
+    return shared_obligations(ctx, ["psbt", "psbt_helper", "tx", "script"], "the result would depend on something other than the arguments and the object's current state")
+
+
 OBLIGATIONS = [
+    ("C10.18", "SHARED", c10_18),
+    ("C10.17", "SET-ORDER", c10_17),
     ("C10.12", "DATAFLOW commitment", c10_12),
     ("C10.11", "MEMO", c10_11),
     ("C10.10", "COVER loops", c10_10),
